@@ -296,21 +296,23 @@ def markValid (nd : Node A) : List Chain → Node A
     let st := statusOf nd.index c
     markValid (if st.valid then nd else setStatus nd c { st with valid := true }) rest
 
+/-- The node right after `blockchain.New` has allocated it: empty cache, nothing dirty. -/
+def bootNode (img : Image A) (index : Rows) (tip : Chain) : Node A :=
+  { index := index, dirty := [], tip := tip, utxo := img.utxo, lastFlush := none, orphans := [],
+    img := img, log := [] }
+
 /-- `blockchain.New` on an image: `initChainState` (or `createChainState`),
 the bucket-version transaction, `InitConsistentState`. The returned node's
 `log` holds the commits made by the start-up itself. -/
 def recover (cfg : Cfg) (img : Image A) : Except Corrupt (Node A) :=
-  let nd0 : Node A := { index := [], dirty := [], tip := [], utxo := img.utxo, lastFlush := none, orphans := [],
-                        img := img, log := [] }
   if !img.created then
-    let nd := emit { nd0 with index := [([], genesisStatus)] } .create
+    let nd := emit (bootNode img [([], genesisStatus)] []) .create
     initConsistent cfg (emit nd .nop)
   else if img.rows.any (fun e => e.1 ≠ [] && e.1.tail ∉ keys img.rows) then .error .missingParent
   else if img.best ∉ keys img.rows then .error .noTip
   else if img.best ∉ img.stored then .error .tipNotStored
   else
-    let nd := { nd0 with index := img.rows, tip := img.best }
-    let nd := flushDirty (markValid nd (suffixes img.best))
+    let nd := flushDirty (markValid (bootNode img img.rows img.best) (suffixes img.best))
     initConsistent cfg (emit nd .nop)
 
 end BV.C04
